@@ -33,15 +33,17 @@ enum Kind : int {
   kOptTrySIX,
   kOptTryX,
   kPrepRead,       // PrepareRead; read; VerifyVersion; release
-  kTwoLockAssign,  // manipulator only: X(A); X(B); gA = move(gB)   (C07 move-assign over an owning guard)
+  kTwoLockAssign,  // manipulator only: X(A); X(B); gA = move(gB)   (C07 move-assign over an owning guard; b selects S / SIX / X)
   kEmptyGuards,    // conversions / destruction of default-constructed and moved-from guards
   kSamePairS,      // S(A); S(A); g1 = move(g2): move-assign over an owning guard of the SAME lock (only in programs whose other threads
                    // request nothing but S on that lock, so that the two shared grants of one thread can never wait for each other)
+  kTwoLockCompositeAssign,  // manipulator only, OptimisticLock: cA = PrepareRead(A); cB = PrepareRead(B); cA = move(cB)
   kKinds
 };
 const char *kKindName[] = {"S", "SIX", "X", "SIX->X", "X->SIX", "X->SIX->X", "SIX->X->SIX", "Opt{read;Verify}", "Opt{read;TryLockS}",
                            "Opt{read;TryLockSIX}", "Opt{read;TryLockX}", "PrepareRead{read;Verify}", "X(A);X(B);gA=move(gB)",
-                           "empty-guard-ops", "S(A);S(A);g1=move(g2)"};
+                           "empty-guard-ops", "S(A);S(A);g1=move(g2)",
+                           "PrepareRead(A);PrepareRead(B);cA=move(cB)"};
 // Op fields: a = extra yields inside the body (0..3) / retries for optimistic ops
 //            b = guard manipulation bits (below)
 //            c = SetVersion request for the (last) X part: 0 default, >0 fresh advance, <0 republish code
@@ -63,13 +65,13 @@ enum Profile : int {
 enum Probe : int {
   pSJoinedWaitingGroup = 0, pUpgradeWaitedForS, pPrepFallbackS, pPrepNonOwning, pTryFailed, pTrySucceeded, pVerifyFailed,
   pVerifyOk, pConflictWaited, pTwoGrants, pVersionWrap, pDowngradeAdmittedS, pSectionsDone, pNodeRecycled,
-  pFinalLockX, pProbes
+  pFinalLockX, pCompAssignOwnTarget, pCompAssignOwnSource, pProbes
 };
 const char *const kProbeNames[] = {"s_request_waited_in_queue", "upgrade_waited_for_shared_holder", "prepare_read_took_shared_fallback",
                                    "prepare_read_returned_version", "trylock_failed", "trylock_succeeded", "verify_failed", "verify_ok",
                                    "request_waited_for_conflicting_holder", "manipulator_held_two_grants", "version_wrapped",
                                    "downgrade_admitted_shared", "sections_completed", "mcs_node_recycled",
-                                   "final_lockx_done", nullptr};
+                                   "final_lockx_done", "composite_move_assigned_over_owning_target", "composite_move_assigned_from_owning_source", nullptr};
 
 constexpr int kTagMcs = 1;
 constexpr int kNone = 0, kS = 1, kSIX = 2, kX = 3;
@@ -123,10 +125,16 @@ struct LockState {
 // properties whose API calls returned a non-owning result but left a write in the lock object; a later deadlock / blocked final
 // LockX in the same run is then attributed to them as well (a phantom grant nobody will release)
 std::string g_suspect_tags;
-void suspect(const char *tags)
+const char *g_suspect_note = "";
+void suspect(const char *tags, const char *note = "after-non-owning-call-modified-lock")
 {
+  if (g_suspect_tags.empty()) g_suspect_note = note;
   if (g_suspect_tags.find(tags) == std::string::npos) g_suspect_tags += tags;
 }
+// a grant was released by move-assigning over its owning guard: if that release did not happen the lock stays held by nobody the
+// ownership model knows, and whoever requests it next waits for ever - by behaviour alone this cannot be told from a lost hand-off,
+// so a later deadlock of the same run is reported under C07 as well as C02
+void released_by_move_assign() { suspect("[C07]", "after-release-by-move-assignment"); }
 std::string g_prop;  // set once per process from the environment: which property this process checks
 bool tagged(const char *tags) { return g_prop.empty() || strstr(tags, g_prop.c_str()) != nullptr; }
 
@@ -521,6 +529,7 @@ struct Runner {
         *s.cur = SG{};
         sx_post_release(L);
         expect_bool(*s.cur, false, "assigned-empty-over-owning");
+        released_by_move_assign();
       }
     }
     if (!(op.b & kReleaseByAssign)) sx_post_release(L);
@@ -559,6 +568,7 @@ struct Runner {
         *s.cur = SIXG{};
         sx_post_release(L);
         expect_bool(*s.cur, false, "assigned-empty-over-owning");
+        released_by_move_assign();
       }
     }
     if (!(op.b & kReleaseByAssign)) sx_post_release(L);
@@ -590,6 +600,7 @@ struct Runner {
         *s.cur = XG{};
         x_post_release(L);
         expect_bool(*s.cur, false, "assigned-empty-over-owning");
+        released_by_move_assign();
       }
     }
     if (!(op.b & kReleaseByAssign)) x_post_release(L);
@@ -769,6 +780,7 @@ struct Runner {
       x_pre_release(A0, ga, acq_a, 0);
       ga = std::move(gb);
       x_post_release(A0);
+      released_by_move_assign();
       expect_bool(ga, true, "move-assigned-over-owning-target");
       expect_bool(gb, false, "move-assigned-source");
       if constexpr (A::kOpt) {
@@ -809,6 +821,7 @@ struct Runner {
       g1 = std::move(g2);
       post_call();
       L.outstanding--;
+      released_by_move_assign();
       expect_bool(g1, true, "move-assigned-over-owning-target(same lock)");
       expect_bool(g2, false, "move-assigned-source(same lock)");
       if (op.b & kMoveCtor) {
@@ -821,6 +834,106 @@ struct Runner {
     }
     sx_post_release(L);
     check_version_quiescent(L, "release S");
+  }
+
+  // the same for shared and SIX guards: S/SIX(A); S/SIX(B); gA = move(gB)
+  template <int M>
+  void sec_two_lock_assign_sx(const Op &op)
+  {
+    using G = std::conditional_t<M == kS, SG, SIXG>;
+    if (nlocks < 2) return;
+    LS &A0 = ls[0], &B0 = ls[1];
+    const char *api = M == kS ? "LockS" : "LockSIX";
+    auto acquire = [](LS &L) -> G {
+      if constexpr (M == kS) return L.lock->LockS(); else return L.lock->LockSIX();
+    };
+    {
+      A0.outstanding++;
+      CallInfo ca = pre_call(A0, api, M);
+      G ga = acquire(A0);
+      granted(A0, ca, M, fMoved, api, true);
+      expect_bool(ga, true, "Lock-result");
+      read_payload_locked(A0, 0, M, false);
+      B0.outstanding++;
+      CallInfo cb = pre_call(B0, api, M);
+      G gb = acquire(B0);
+      granted(B0, cb, M, fMoved, api, true);
+      dsim::probe(pTwoGrants);
+      read_payload_locked(B0, static_cast<int>(op.a), M, false);
+      // ga = move(gb): releases A exactly once, ga now owns B
+      sx_pre_release(A0, M, "release by move-assign over owning guard");
+      ga = std::move(gb);
+      sx_post_release(A0);
+      released_by_move_assign();
+      expect_bool(ga, true, "move-assigned-over-owning-target");
+      expect_bool(gb, false, "move-assigned-source");
+      check_version_quiescent(A0, "move-assign over owning guard");
+      read_payload_locked(B0, 0, M, false);
+      sx_pre_release(B0, M, M == kS ? "release S" : "release SIX");
+    }
+    sx_post_release(B0);
+    check_version_quiescent(B0, "release after move-assign");
+  }
+
+  // composite guards of two locks, whatever they own: cA = move(cB) releases A's shared grant if cA had one, cA then is what cB was
+  void sec_two_lock_composite_assign(const Op &op)
+  {
+    if constexpr (A::kOpt) {
+      if (nlocks < 2) return;
+      using CG = OptimisticLock::CompositeGuard;
+      LS &A0 = ls[0], &B0 = ls[1];
+      {
+        A0.outstanding++;
+        CallInfo ca = pre_call(A0, "PrepareRead", kNone);
+        CG ga = A0.lock->PrepareRead();
+        const bool own_a = static_cast<bool>(ga);
+        if (own_a) {
+          granted(A0, ca, kS, fPrep | fMoved, "PrepareRead", false);
+          read_payload_locked(A0, 0, kS, false);
+        } else {
+          if (dsim::watched_write_seq() != 0) suspect("[C13]");
+          post_call();
+        }
+        B0.outstanding++;
+        CallInfo cb = pre_call(B0, "PrepareRead", kNone);
+        CG gb = B0.lock->PrepareRead();
+        const bool own_b = static_cast<bool>(gb);
+        if (own_b) {
+          granted(B0, cb, kS, fPrep | fMoved, "PrepareRead", false);
+        } else {
+          if (dsim::watched_write_seq() != 0) suspect("[C13]");
+          post_call();
+        }
+        if (own_a) dsim::probe(pCompAssignOwnTarget);
+        if (own_b) dsim::probe(pCompAssignOwnSource);
+        const uint32_t ver_b = gb.GetVersion();
+        if (own_a) sx_pre_release(A0, kS, "release composite S by move-assign"); else dsim::op_begin("move-assign over non-owning composite", A0.idx);
+        ga = std::move(gb);
+        sx_post_release(A0);
+        if (own_a) released_by_move_assign();
+        expect_bool(ga, own_b, "composite-move-assigned-target");
+        expect_bool(gb, false, "composite-move-assigned-source");
+        if (ga.GetVersion() != ver_b) {
+          ORACLE("[C07][C13]", "composite-version-after-move", " :: moved composite guard reports version %u, the source carried %u", ga.GetVersion(), ver_b);
+        }
+        check_version_quiescent(A0, "move-assign over composite guard");
+        if (own_b) {
+          read_payload_locked(B0, static_cast<int>(op.a), kS, false);
+          pre_call(B0, "CompositeGuard::VerifyVersion", kNone);
+          const bool ok = ga.VerifyVersion();
+          post_call();
+          if (!ok) ORACLE("[C13]", "verify-failed-on-owning-composite", " :: VerifyVersion of an owning composite guard returned false (vt%d, lock %d)", dsim::self(), B0.idx);
+          expect_bool(ga, true, "owning-composite-after-verify");
+          sx_pre_release(B0, kS, "release composite S");
+        } else {
+          dsim::op_begin("destroy non-owning composite", B0.idx);
+        }
+      }
+      sx_post_release(B0);
+      check_version_quiescent(B0, "release composite");
+    } else {
+      (void)op;
+    }
   }
 
   // ---------------------------------------------------------------------------------------------
@@ -1153,7 +1266,12 @@ struct Runner {
       case kOptTrySIX:
       case kOptTryX: opt_section(L, op); break;
       case kPrepRead: prep_section(L, op); break;
-      case kTwoLockAssign: sec_two_lock_assign(op); break;
+      case kTwoLockAssign:
+        if (op.b == 2) sec_two_lock_assign_sx<kS>(op);
+        else if (op.b == 3) sec_two_lock_assign_sx<kSIX>(op);
+        else sec_two_lock_assign(op);
+        break;
+      case kTwoLockCompositeAssign: sec_two_lock_composite_assign(op); break;
       case kEmptyGuards: sec_empty(L, op); break;
       case kSamePairS: sec_same_pair_s(L, op); break;
       default: break;
@@ -1302,6 +1420,7 @@ void entry(void *)
 {
   const Program &p = current_program();
   g_suspect_tags.clear();
+  g_suspect_note = "";
   switch (p.family) {
     case 0: run_family<PessA>(p); break;
     case 1: run_family<OptA>(p); break;
@@ -1427,7 +1546,7 @@ void generate(Program &prog, dsim::Config &cfg, dsim::Rng &pr, dsim::Rng &cr, in
         }
         x -= W.w[k];
       }
-      if (is_manip && pr.chance(1, 2)) o.kind = kTwoLockAssign;
+      if (is_manip && pr.chance(1, 2)) o.kind = (opt && pr.chance(1, 3)) ? kTwoLockCompositeAssign : kTwoLockAssign;
       const bool pair_op = pair_mode && t == 0 && pr.chance(1, 2);
       // threads of a program with a manipulator stay on one lock for their whole life (DESIGN section 4)
       o.obj = (manipulator && !is_manip) ? home : static_cast<int>(pr.below(static_cast<uint64_t>(nlocks)));
@@ -1442,6 +1561,7 @@ void generate(Program &prog, dsim::Config &cfg, dsim::Rng &pr, dsim::Rng &cr, in
       if (profile == kPrepare && (o.kind == kSecX || o.kind == kSecXDown)) o.a = 2 + static_cast<int64_t>(pr.below(2));
       o.b = 0;
       if (pr.below(100) < static_cast<uint64_t>(manip_percent)) o.b = static_cast<int64_t>(pr.below(32));
+      if (o.kind == kTwoLockAssign) o.b = static_cast<int64_t>(pr.below(4));  // 0, 1: X guards; 2: S guards; 3: SIX guards
       o.c = 0;
       if (opt) {
         if (profile == kRepublish) {
@@ -1494,7 +1614,8 @@ std::string render(const Program &p)
     for (auto &o : p.threads[t]) {
       s += " " + std::string(o.kind >= 0 && o.kind < kKinds ? kKindName[o.kind] : "?") + "(L" + std::to_string(o.obj);
       if (o.a) s += ",yields=" + std::to_string(o.a);
-      if (o.b) s += ",moves=" + std::to_string(o.b);
+      if (o.kind == kTwoLockAssign) s += o.b == 2 ? ",S guards" : (o.b == 3 ? ",SIX guards" : ",X guards");
+      else if (o.b) s += ",moves=" + std::to_string(o.b);
       if (o.c > 0) s += ",SetVersion=+" + std::to_string(o.c);
       if (o.c < 0) s += ",SetVersion=republish" + std::to_string(-o.c);
       s += ");";
@@ -1509,7 +1630,7 @@ std::string tags_for_runtime_class(const Program &p, const char *cls)
   const std::string c = cls;
   if (c.rfind("deadlock", 0) == 0) {
     if (!g_suspect_tags.empty()) {
-      return (std::string(phase()) == "final" ? "[C02][C07]" : "[C02]") + g_suspect_tags + " after-non-owning-call-modified-lock";
+      return (std::string(phase()) == "final" ? "[C02][C07]" : "[C02]") + g_suspect_tags + " " + g_suspect_note;
     }
     if (std::string(phase()) == "final") {
       bool setver = false;
